@@ -185,21 +185,33 @@ def run_property(prop, tier, seed, jobs=None, only=None, timeout_ms=None):
     tasks = todo
     fresh = []
     if tasks:
-        if jobs == 1:
+        if os.environ.get("VERIF_INPROC"):
             _winit()
-            results = [_wrun(t) for t in tasks]
+            fresh = [_wrun(t) for t in tasks]
         else:
-            with mp.Pool(jobs, initializer=_winit) as pool:
-                for r in pool.imap_unordered(_wrun, tasks, chunksize=max(1, min(16, len(tasks) // (jobs * 8) or 1))):
-                    results.append(r)
-                    fresh.append(r)
-    if jobs == 1:
-        fresh = results[cache_hits:]
+            from .pool import run_tasks
+            limit = int(os.environ.get("VERIF_CELL_LIMIT", "150" if tier == "quick" else "900"))
+            for idx, status, payload in run_tasks(_wrun, tasks, jobs, init=_winit, limit_s=limit):
+                if status == "done":
+                    fresh.append(payload)
+                else:
+                    t = tasks[idx]
+                    d = {"lemma": t[0], "cell": t[1]["id"], "paths": 0, "aborted": 0, "queries": 0, "solver_s": 0, "wall_s": 0,
+                         "clauses": {}, "failures": [], "undecided": [], "errors": [], "notes": [], "pathsig": [],
+                         "bounded": t[1].get("bounded")}
+                    if status == "watchdog":
+                        d["clauses"] = {"cell-watchdog": {"status": "undecided", "props": sorted(set(
+                            p for l in all_lemmas() if l.name == t[0] for p in l.props)), "n": 1, "ms": limit * 1000.0}}
+                        d["undecided"] = [{"clause": "cell-watchdog", "reason": payload}]
+                    else:
+                        d["errors"] = ["worker %s: %s" % (status, payload)]
+                    fresh.append(d)
+        results.extend(fresh)
     if cdir:
         byid = {(t[0], t[1]["id"]): t for t in tasks}
         for r in fresh:
             t = byid.get((r["lemma"], r["cell"]))
-            if t is None or any("crash" in e for e in r["errors"]):
+            if t is None or r["errors"] or "cell-watchdog" in r["clauses"]:
                 continue
             try:
                 with open(_cache_path(cdir, t), "w") as fh:
@@ -324,10 +336,11 @@ def report(s, manifest_level):
         for e in s["errors"][:8]:
             print("CHECKER-ERROR: %s" % e)
         code = 3
-    if s["n_und"] and code == 0:
+    if s["n_und"]:
         for u in s["undecided"][:8]:
             print("UNDECIDED: %s" % u)
-        code = 2
+        if code == 0:
+            code = 2
     if s["n_obl"] + s["bounded_obl"] == 0 and code == 0:
         print("CHECKER-ERROR: zero obligations generated for %s" % prop)
         code = 3
